@@ -5,109 +5,12 @@ Loaded together with types_sub.py (field layout, Valid, PyEq).
 object allocated during the call (option frame="fresh"), and every contract carries the frame postcondition
 `forall o allocated before the call: all fields unchanged`, so callers recover what the callee left alone.
 """
-bound(o="Type", tm="Map[TypeParameter,Type]", k="Int")
+bound(tm="Map[TypeParameter,Type]", k="Int")
 alias("TypeMap", "Map[TypeParameter,Type]")
 
 
 @ghost
 def Frame(dummy: "Int") -> "Bool":
-    pass
-
-
-# ---------------------------------------------------------------- trusted library contracts
-@external("copy.deepcopy", allocates=True)
-def _(x: "Type") -> "Type":
-    """deep copy: a fresh object of the same class with equal scalar attributes and copied containers"""
-    modifies(".*")
-    ensures("new", newobj(result) and same_class(result, x))
-    ensures("name", same(result.name, x.name))
-    ensures("supertypes-len", len(result.supertypes) == len(x.supertypes))
-    ensures("params-len", implies(isinstance(x, TypeConstructor),
-                                  len(cast(result, "TypeConstructor").type_parameters)
-                                  == len(cast(x, "TypeConstructor").type_parameters)))
-    ensures("frame", forall(lambda o: implies(allocated(o), unchanged(o))))
-
-
-# ---------------------------------------------------------------- constructors
-@contract("src.ir.types.Type.__init__", frame="self")
-def _(self: "Type", name: "Str") -> "None":
-    modifies(".name", ".supertypes")
-    ensures("fields", same(self.name, name) and len(self.supertypes) == 0)
-    ensures("frame", forall(lambda o: implies(not same(o, self), unchanged(o))))
-
-
-@contract("src.ir.types.SimpleClassifier._check_supertypes", trusted=True)
-def _(self: "SimpleClassifier") -> "None":
-    """consistency assertion over the supertype closure; reads only (may raise AssertionError)"""
-    pass
-
-
-@contract("src.ir.types.SimpleClassifier.__init__", frame="self")
-def _(self: "SimpleClassifier", name: "Str", supertypes: "Opt[Seq[Type]]", check: "Bool") -> "None":
-    modifies(".name", ".supertypes")
-    ensures("name", same(self.name, name))
-    ensures("supertypes", implies(supertypes is not None, same(self.supertypes, supertypes)))
-    ensures("supertypes-default", implies(supertypes is None, len(self.supertypes) == 0))
-    ensures("frame", forall(lambda o: implies(not same(o, self), unchanged(o))))
-
-
-@contract("src.ir.types.TypeParameter.__init__", frame="self")
-def _(self: "TypeParameter", name: "Str", variance: "Opt[Variance]", bound: "Opt[Type]") -> "None":
-    modifies(".name", ".supertypes", ".variance", ".bound")
-    ensures("fields", same(self.name, name) and same(self.bound, bound) and len(self.supertypes) == 0)
-    ensures("variance", implies(variance is not None, same(self.variance, variance)))
-    ensures("frame", forall(lambda o: implies(not same(o, self), unchanged(o))))
-
-
-@contract("src.ir.types.WildCardType.__init__", frame="self")
-def _(self: "WildCardType", bound: "Opt[Type]", variance: "Variance") -> "None":
-    modifies(".name", ".supertypes", ".variance", ".bound")
-    ensures("fields", same(self.bound, bound) and same(self.variance, variance) and len(self.supertypes) == 0)
-    ensures("frame", forall(lambda o: implies(not same(o, self), unchanged(o))))
-
-
-@contract("src.ir.types.TypeConstructor.__init__", frame="self")
-def _(self: "TypeConstructor", name: "Str", type_parameters: "Seq[TypeParameter]", supertypes: "Opt[Seq[Type]]") -> "None":
-    requires("nonempty", len(type_parameters) != 0)
-    modifies(".name", ".supertypes", ".type_parameters")
-    ensures("fields", same(self.name, name) and seq_eq(self.type_parameters, type_parameters))
-    ensures("supertypes", implies(supertypes is not None, same(self.supertypes, supertypes)))
-    ensures("frame", forall(lambda o: implies(not same(o, self), unchanged(o))))
-
-
-@contract("src.ir.types.ParameterizedType.__init__", frame="self")
-def _(self: "ParameterizedType", t_constructor: "TypeConstructor", type_args: "Seq[Type]", can_infer_type_args: "Bool") -> "None":
-    requires("arity", len(t_constructor.type_parameters) == len(type_args))
-    modifies(".*")
-    ensures("constructor-copied", newobj(self.t_constructor) and same_class(self.t_constructor, t_constructor)
-            and same(self.t_constructor.name, t_constructor.name)
-            and len(self.t_constructor.type_parameters) == len(t_constructor.type_parameters)
-            and len(self.t_constructor.supertypes) == len(t_constructor.supertypes))
-    ensures("args", seq_eq(self.type_args, type_args))
-    ensures("name", same(self.name, t_constructor.name))
-    ensures("supertypes", seq_eq(self.supertypes, self.t_constructor.supertypes))
-    ensures("frame", forall(lambda o: implies(allocated(o) and not same(o, self), unchanged(o))))
-
-
-# ---------------------------------------------------------------- classification helpers (defined by the class)
-@family("src.ir.types.Type.is_wildcard", pure=True)
-def _(self: "Type") -> "Bool":
-    ensures("def", result == isinstance(self, WildCardType))
-
-
-@family("src.ir.types.Type.is_type_var", pure=True)
-def _(self: "Type") -> "Bool":
-    ensures("def", result == isinstance(self, TypeParameter))
-
-
-@family("src.ir.types.Type.is_type_constructor", pure=True)
-def _(self: "Type") -> "Bool":
-    ensures("def", result == isinstance(self, TypeConstructor))
-
-
-@external("src.ir.types.<cond>")
-def _(t: "Type") -> "Bool":
-    """the predicate passed as `cond` (a lambda at the call sites): pure, arbitrary"""
     pass
 
 
